@@ -90,6 +90,8 @@ def cmd_replay(path):
     want = rep.get("signature")
     vs = res.get("violations", [])
     hit = [v for v in vs if mod.signature(v) == want] if want else vs
+    if not hit and vs and (rep.get("shrink") or {}).get("skipped") == "unstable":
+        hit = vs            # recorded as failing with varying classes: any violation reproduces it
     if not hit:
         others = sorted({mod.signature(v) for v in vs})
         print(f"NOT-REPRODUCED property={prop} signature={want} (other violations in this replay: {others})")
@@ -214,10 +216,24 @@ def cmd_check(prop, tier, seed, n_runs, budget, first):
             plan_min, vmin, st = shrinker.shrink(mod, r["plan"], sig, timeout=120.0,
                                                  budget_s=shrink_budget if kn is None else 10.0)
             if plan_min is None:
-                harness_errors.append({"run": r["run"], "status": "not-reproduced",
-                                       "detail": f"violation {sig} did not reproduce when the recorded plan "
-                                                 f"was re-executed in a fresh child"})
-                continue
+                # The recorded plan did not fail the same way in a fresh child.  If it still fails - with another
+                # class of violation - the code under test is not a function of the plan there (e.g. it reads
+                # uninitialised memory): that is a violation all the same, reported unshrunk.  Only a plan that
+                # fails in no re-execution at all is the harness's problem.
+                other = None
+                for _ in range(2):
+                    st3, res3 = core.run_in_child(mod.execute, r["plan"], 300.0)
+                    if st3 == "ok" and res3.get("violations"):
+                        other = res3["violations"][0]
+                        break
+                if other is None:
+                    harness_errors.append({"run": r["run"], "status": "not-reproduced",
+                                           "detail": f"violation {sig} did not reproduce when the recorded plan "
+                                                     f"was re-executed in a fresh child"})
+                    continue
+                plan_min, vmin = r["plan"], v
+                st = {"skipped": "unstable", "note": "the same plan failed with different violation classes in different "
+                      "executions (" + sig + " / " + mod.signature(other) + "): the code under test is not deterministic here"}
         entry["shrink"] = st
         entry["ops_min"] = len(plan_min["ops"])
         if kn is not None:
